@@ -16,16 +16,20 @@ import (
 func c15Templates(c *run.Ctx) {
 	vals := []uint32{0, 1, 2, 3, 4, 7, 0x7FFFFFFF, 0x80000000, 0xFFFFFFFF}
 	type tcase struct {
-		space string
-		i, j  uint32
-		op    string
+		space  string
+		i, j   uint32
+		op     string
+		viaPtr bool // the access happens in a helper that receives the buffer as ptr<storage, ...>
 	}
 	var tcs []tcase
 	for _, sp := range []string{"storage", "workgroup"} {
 		for _, op := range []string{"atomicAdd", "atomicMax", "atomicExchange", "atomicStore"} {
 			for _, i := range vals {
 				for _, j := range vals {
-					tcs = append(tcs, tcase{sp, i, j, op})
+					tcs = append(tcs, tcase{sp, i, j, op, false})
+					if sp == "storage" && (i+j)%3 == 0 {
+						tcs = append(tcs, tcase{sp, i, j, op, true})
+					}
 				}
 			}
 		}
@@ -42,6 +46,9 @@ func c15Templates(c *run.Ctx) {
 	c.Each(n, func(ti int) (string, run.Outcome) {
 		tc := tcs[ti]
 		id := fmt.Sprintf("template %s %s cells[%d].bins[%d]", tc.space, tc.op, tc.i, tc.j)
+		if tc.viaPtr {
+			id += " via ptr<storage> parameter"
+		}
 		const nCells, nBins = 3, 4
 		// i = idx[1] * Ki + Ci with idx[1] == 1 in the pattern buffer: a run-time value equal to the wanted index
 		call := fmt.Sprintf("%s(&g.cells[i].bins[j], 100u)", tc.op)
@@ -50,7 +57,25 @@ func c15Templates(c *run.Ctx) {
 			stmt = "o[20] = " + call + ";" // the returned old value is observed too
 		}
 		var src string
-		if tc.space == "storage" {
+		if tc.viaPtr {
+			helper := fmt.Sprintf("fn op(p: ptr<storage, Grid, read_write>, i: u32, j: u32) -> u32 { return %s(&(*p).cells[i].bins[j], 100u); }", tc.op)
+			use := "o[20] = op(&g, i, j);"
+			if tc.op == "atomicStore" {
+				helper = "fn op(p: ptr<storage, Grid, read_write>, i: u32, j: u32) { atomicStore(&(*p).cells[i].bins[j], 100u); }"
+				use = "op(&g, i, j);"
+			}
+			src = fmt.Sprintf(`struct Cell { bins: array<atomic<u32>, %d>, tag: u32, }
+struct Grid { cells: array<Cell, %d>, }
+@group(0) @binding(0) var<storage, read_write> o: array<u32, 64>;
+@group(0) @binding(1) var<storage, read_write> g: Grid;
+%s
+@compute @workgroup_size(1) fn main() {
+    let i = o[1] * %du;
+    let j = o[1] * %du;
+    %s
+}
+`, nBins, nCells, helper, tc.i, tc.j, use)
+		} else if tc.space == "storage" {
 			src = fmt.Sprintf(`struct Cell { bins: array<atomic<u32>, %d>, tag: u32, }
 struct Grid { cells: array<Cell, %d>, }
 @group(0) @binding(0) var<storage, read_write> o: array<u32, 64>;
@@ -88,7 +113,14 @@ var<workgroup> g: Grid;
 			be  textBackend
 			sub string
 			pol string
-		}{{mslBackend, "policy=2", "restrict"}, {mslBackend, "policy=1", "rzsw"}, {hlslBackend, "restrict=true", "restrict"}} {
+		}{{mslBackend, "policy=2", "restrict"}, {mslBackend, "policy=1", "rzsw"}, {hlslBackend, "restrict=true", "restrict"},
+			{mslBackend, "policy=0+buffer=2", "restrict"}, {mslBackend, "policy=0+buffer=1", "rzsw"}} {
+			if strings.Contains(ln.sub, "+buffer=") && tc.space != "storage" {
+				continue // with Index unchecked a hostile index into workgroup memory is outside the property
+			}
+			if ln.be.name == "hlsl" && tc.viaPtr {
+				continue // the HLSL backend does not support atomics through a pointer parameter (a backend error, C08 territory)
+			}
 			if ln.be.name == "hlsl" && tc.space == "storage" {
 				continue // finding F109: RestrictIndexing does not cover storage buffers
 			}
@@ -102,6 +134,9 @@ var<workgroup> g: Grid;
 				continue
 			}
 			lane := ln.be.name + "/" + ln.pol
+			if strings.Contains(ln.sub, "+buffer=") {
+				lane += "(buffer-only)"
+			}
 			rs := resOfModule(mod)
 			var tr textRun
 			if st, pan := run.Catch(func() { tr = ln.be.run(mod, "main", rs, [3]uint32{1, 1, 1}, false, oi, true) }); pan {
